@@ -436,7 +436,7 @@ structure Quirks where
 
 def quirksOf (e : Enc) (d : Dev) (o : Opts) : Quirks :=
   match e with
-  | .oj => ⟨d.bytesAsSlice, d.tightNilDeref && !o.indent, false, d.embNilPanic, d.nestedOmit, !o.indent⟩
+  | .oj => ⟨d.bytesAsSlice, d.tightNilDeref && !o.indent, false, d.embNilPanic, d.nestedOmit, d.nestedOmit && !o.indent⟩
   | .sen => ⟨d.bytesAsSlice, false, false, d.embNilPanic, d.nestedOmit, false⟩
   | .alt => ⟨false, false, d.mapNilNull, d.embNilPanic, false, false⟩
 
